@@ -23,6 +23,8 @@ obligations listed in `harness/c10.py`.
 import MenpoModel.Lemmas.C10Book
 import MenpoModel.Lemmas.C10Linear
 import MenpoModel.Lemmas.C10Float
+import MenpoModel.Lemmas.C10Access
+import MenpoModel.Lemmas.C10Object
 
 namespace MenpoModel.C10
 open Matrix St
@@ -135,6 +137,124 @@ theorem driver_forms (U : Matrix (Fin k) (Fin d) ℚ) (m x : Fin d → ℚ) :
     (x - m) - (vofArr k (vtoArr (project U m x))) ᵥ* U = projectOut U m x := by
   rw [vmaterialize_eq]; exact ⟨rfl, rfl⟩
 
+
+/-! ## (c) object-backed models (`PCAModel`): the object-level operations are the vector-level ones -/
+
+/-- PROPERTY (object wrapping): for every Vectorizable class satisfying the round-trip law, each
+object-level operation of `PCAModel`, read back through `as_vector`, *is* the vector-level operation on
+`as_vector` of the argument; results built by `template.from_vector` carry the template's non-vector
+state, results built by the argument's `from_vector` carry the argument's. -/
+theorem object_level_eq_vector_level {α ρ : Type} (M : ObjModel α d k) {rest : α → ρ}
+    (h : Lawful M.ops rest) (o : α) (w : Fin k → ℚ) (sd : Fin k → ℚ) (i : Fin k) (b : Bool) (scale : ℚ) :
+    M.ops.asVec M.mean = M.m ∧
+    M.project o = project M.U M.m (M.ops.asVec o) ∧
+    M.ops.asVec (M.inst w) = inst M.U M.m w ∧
+    M.ops.asVec (M.reconstruct o) = reconstruct M.U M.m (M.ops.asVec o) ∧
+    M.ops.asVec (M.projectOut o) = projectOut M.U M.m (M.ops.asVec o) ∧
+    M.ops.asVec (M.component sd i b scale) = component M.U M.m sd i b scale ∧
+    rest M.mean = rest M.template ∧ rest (M.inst w) = rest M.template ∧
+    rest (M.component sd i b scale) = rest M.template ∧
+    rest (M.reconstruct o) = rest o ∧ rest (M.projectOut o) = rest o :=
+  ⟨M.asVec_mean h, rfl, M.asVec_inst h w, M.asVec_reconstruct h o, M.asVec_projectOut h o,
+    M.asVec_component h sd i b scale, h.rest_from _ _, h.rest_from _ _, h.rest_from _ _, h.rest_from _ _,
+    h.rest_from _ _⟩
+
+/-- PROPERTY (object-backed models satisfy the identities): projecting an instance returns the weights,
+reconstruction is idempotent *as an object*, equals `instance(project(·))` on the vector part, the residual
+object is orthogonal to every component and `reconstruct + project_out` gives the argument back. -/
+theorem object_level_identities {α ρ : Type} (M : ObjModel α d k) {rest : α → ρ} (h : Lawful M.ops rest)
+    (hU : M.U * M.Uᵀ = 1) (o : α) (w : Fin k → ℚ) :
+    M.project (M.inst w) = w ∧
+    M.reconstruct (M.reconstruct o) = M.reconstruct o ∧
+    M.ops.asVec (M.reconstruct o) = M.ops.asVec (M.inst (M.project o)) ∧
+    M.U *ᵥ M.ops.asVec (M.projectOut o) = 0 ∧
+    M.ops.asVec (M.reconstruct o) + M.ops.asVec (M.projectOut o) = M.ops.asVec o := by
+  refine ⟨M.project_inst h hU w, M.reconstruct_idem h hU o, M.reconstruct_eq_inst_project h o, ?_, ?_⟩
+  · rw [M.asVec_projectOut h]; exact residual_orthogonal hU _ _
+  · rw [M.asVec_projectOut h, M.asVec_reconstruct h]; exact reconstruct_add_projectOut _ _ _
+
+/-- PROPERTY (object-backed, all components kept): every training *object* is reconstructed exactly —
+the same object, non-vector state included. -/
+theorem object_training_reconstructed {α ρ : Type} (M : ObjModel α d k) {rest : α → ρ}
+    (h : Lawful M.ops rest) {Xc : Matrix (Fin n) (Fin d) ℚ} {l : Fin k → ℚ} (hn : 2 ≤ n)
+    (hc : EigContract (cov Xc) M.U l) (htr : trace (cov Xc) = ∑ i, l i) (s : Fin n) (o : α)
+    (ho : M.ops.asVec o = fun j => Xc s j + M.m j) : M.reconstruct o = o := by
+  unfold ObjModel.reconstruct
+  rw [ho, full_model_reconstructs_training hn hc htr M.m s, ← ho, h.from_as]
+
+/-- PROPERTY: the modelled classes — plain vectors, `PointCloud` (`ravel` / `reshape(-1, n_dims)`), `Image`
+(`ravel` / `reshape((n_channels,) + shape)`) — satisfy the round-trip law, so the three theorems above
+apply to them. -/
+theorem concrete_templates_lawful (p dims c hh ww : ℕ) :
+    Lawful (vecOps d) (fun _ => ()) ∧ Lawful (pcOps p dims) PC.tag ∧ Lawful (imgOps c hh ww) Img.tag :=
+  ⟨vecOps_lawful d, pcOps_lawful p dims, imgOps_lawful c hh ww⟩
+
+/-! ## (d) the other entry points of `LinearVectorModel` / `MeanLinearVectorModel` / `PCAVectorModel` -/
+
+/-- PROPERTY: `LinearVectorModel` is the mean-free case, so its project / instance / reconstruct /
+project_out satisfy the same identities. -/
+theorem linear_model_clause {U : Matrix (Fin k) (Fin d) ℚ} (hU : U * Uᵀ = 1) (x : Fin d → ℚ) (w : Fin k → ℚ) :
+    linProject U x = project U 0 x ∧ linInstance U w = inst U 0 w ∧
+    linReconstruct U x = reconstruct U 0 x ∧ linProjectOut U x = projectOut U 0 x ∧
+    linProject U (linInstance U w) = w ∧ linReconstruct U (linReconstruct U x) = linReconstruct U x ∧
+    U *ᵥ linProjectOut U x = 0 := by
+  refine ⟨linProject_eq U x, linInstance_eq U w, linReconstruct_eq U x, linProjectOut_eq U x, ?_, ?_, ?_⟩
+  · rw [linProject_eq, linInstance_eq]; exact project_instance hU 0 w
+  · rw [linReconstruct_eq, linReconstruct_eq]; exact reconstruct_idempotent hU 0 x
+  · rw [linProjectOut_eq]; exact residual_orthogonal hU 0 x
+
+/-- PROPERTY (weight lists): `PCAVectorModel.instance` accepts at most `n_active` weights and pads with
+zeros (`LinearVectorModel.instance` needs exactly `n_components`); projecting the instance returns the
+padded list.  With `normalized_weights=True` (square-root contract `sd i ^ 2 = l i` not even needed) the
+weights come back multiplied by `sd`. -/
+theorem instance_weights_clause {U : Matrix (Fin k) (Fin d) ℚ} (hU : U * Uᵀ = 1) (m : Fin d → ℚ) (w : List ℚ) :
+    ((instPadded U m w).isSome ↔ w.length ≤ k) ∧
+    (∀ v, instPadded U m w = some v → ∀ i : Fin k, project U m v i = w.getD i.val 0) ∧
+    (∀ f, exactWeights k w = some f → instPadded U m w = some (inst U m f)) ∧
+    (∀ sd wv : Fin k → ℚ, project U m (instNormalized U m sd wv) = fun i => wv i * sd i) := by
+  refine ⟨?_, ?_, ?_, fun sd wv => project_instance hU m _⟩
+  · rw [instPadded, Option.isSome_map]; exact padWeights_isSome
+  · intro v hv i
+    simp only [instPadded, Option.map_eq_some_iff] at hv
+    obtain ⟨f, hf, rfl⟩ := hv
+    rw [project_instance hU, (padWeights_spec hf).2 i]
+  · intro f hf
+    simp only [instPadded, exactWeights_eq_pad hf, Option.map_some]
+
+/-- PROPERTY (`component`, `whitened_components`, `project_whitened`): a component blended with the mean at
+`scale` standard deviations projects to `scale · sd_i` on its own axis and to zero elsewhere; the whitened
+rows are mutually orthogonal with squared length `1 / (l_i · n_samples + noise)`; `project_whitened` divides
+the (mean-*un*subtracted) coordinates by `σ_i`. -/
+theorem component_and_whitening_clause {U : Matrix (Fin k) (Fin d) ℚ} (hU : U * Uᵀ = 1) (m x : Fin d → ℚ)
+    (sd σ l : Fin k → ℚ) (nS noise : ℚ) (hσ : ∀ i, σ i ^ 2 = l i * nS + noise) (i : Fin k) (scale : ℚ) :
+    project U m (component U m sd i true scale) = (fun j => if j = i then scale * sd i else 0) ∧
+    component U m sd i false scale = U i ∧
+    whitened U σ * (whitened U σ)ᵀ = diagonal (fun i => (l i * nS + noise)⁻¹) ∧
+    (∀ j, projectWhitened U σ x j = (U *ᵥ x) j / σ j) := by
+  refine ⟨project_component hU m sd i scale, rfl, ?_, projectWhitened_apply U σ x⟩
+  rw [whitened_gram hU]
+  congr 1
+  funext j
+  rw [hσ j]
+
+/-- PROPERTY (`orthonormalize_against_inplace`, QR contract): both models end with orthonormal components
+that are mutually orthogonal, so the projection identities keep holding for each of them. -/
+theorem ortho_against_clause {k1 k2 : ℕ} {Q : Matrix (Fin (k1 + k2)) (Fin d) ℚ} (hQ : Q * Qᵀ = 1)
+    (m x : Fin d → ℚ) (w : Fin k2 → ℚ) :
+    qTop Q * (qTop Q)ᵀ = 1 ∧ qBot Q * (qBot Q)ᵀ = 1 ∧ qBot Q * (qTop Q)ᵀ = 0 ∧
+    project (qBot Q) m (inst (qBot Q) m w) = w ∧ qBot Q *ᵥ projectOut (qBot Q) m x = 0 := by
+  obtain ⟨h1, h2, h3⟩ := ortho_against_rows hQ
+  exact ⟨h1, h2, h3, project_instance h2 m w, residual_orthogonal h2 m x⟩
+
+/-- the forms the driver evaluates for the object layer are the definitions above: objects are frozen into
+arrays (`freezePC`, an identity) and a short weight list is padded by `padWeights` inside `instPadded` -/
+theorem driver_object_forms {p dims : ℕ} (o : PC p dims) {α : Type} (M : ObjModel α d k) (w : List ℚ) :
+    freezePC o = o ∧
+    M.instPadded w = (padWeights k w).map M.inst := by
+  refine ⟨freezePC_eq o, ?_⟩
+  simp only [ObjModel.instPadded, instPadded, Option.map_map]
+  rfl
+
 /-! ## (b) bookkeeping: every finite history of setter calls (int, float, numpy-int form) and trims -/
 
 /-- PROPERTY: no history changes the total original variance (no hypothesis on the state at all). -/
@@ -239,6 +359,152 @@ theorem trim_float_eq_build {eig0 : List Rat} (h0 : eig0 ≠ []) (hp : ∀ x ∈
       s'.rows = b.rows ∧ s'.eig = b.eig ∧ s'.nActive = b.nActive ∧ s'.trimmed.Perm b.trimmed :=
   trim_float_of_reach h0 hp (reach_run (reach_init h0) ops) hr0 hr1
 
+
+/-! ### the trimmed pool as coded, and what of it is observable -/
+
+/-- PROPERTY (order of the trimmed pool, as coded): after any history the pool is the concatenation, in the
+order in which components were actually removed, of the slices `eig0[new_count : old_count]`
+(`cutsRun` lists the counts reached by the operations that removed components; they strictly decrease and
+end at the current `n_components`).  In particular after a single effective trim it is `eig0[count:]`. -/
+theorem trimmed_pool_order {eig0 : List Rat} (h0 : eig0 ≠ []) (ops : List Op) :
+    let s0 := init eig0.length eig0
+    (s0.run ops).trimmed = poolOf eig0 eig0.length (cutsRun s0 ops) ∧
+    Desc eig0.length (cutsRun s0 ops) ∧ lastCut eig0.length (cutsRun s0 ops) = (s0.run ops).rows := by
+  intro s0
+  have h := run_pool (reach_init h0) ops
+  have e1 : (init eig0.length eig0).trimmed = [] := rfl
+  have e2 : (init eig0.length eig0).rows = eig0.length := rfl
+  rw [e1, e2, List.nil_append] at h
+  exact h
+
+/-- PROPERTY (the order of the pool is not observable): two models that agree except for the order of the
+pool agree on every accessor, and every further setter call treats them alike. -/
+theorem pool_order_unobservable {s t : St} (h : Same s t) (v : Val) :
+    (s.originalVariance = t.originalVariance ∧ s.variance = t.variance ∧
+     s.varianceRatio = t.varianceRatio ∧ s.noiseVariance = t.noiseVariance ∧
+     s.noiseVarianceRatio = t.noiseVarianceRatio ∧ s.eigenvalues = t.eigenvalues ∧
+     s.eigenvaluesRatio = t.eigenvaluesRatio ∧ s.eigenvaluesCumulativeRatio = t.eigenvaluesCumulativeRatio ∧
+     s.activeRows = t.activeRows ∧ s.totalVarianceRatio = t.totalVarianceRatio ∧
+     s.totalCumRatio = t.totalCumRatio ∧ s.inverseNoiseVariance = t.inverseNoiseVariance) ∧
+    ((∃ e, s.setActive v = .error e ∧ t.setActive v = .error e) ∨
+     (∃ s' t', s.setActive v = .ok s' ∧ t.setActive v = .ok t' ∧ Same s' t')) :=
+  ⟨h.accessors, h.setActive v⟩
+
+/-- PROPERTY ("the same model as building with that many components", observably): trimming to `k` after any
+history and building with `max_n_components = k` differ at most in the order of the pool. -/
+theorem trim_eq_build_observably {eig0 : List Rat} (h0 : eig0 ≠ []) (ops : List Op) {k : Nat}
+    (hk1 : 1 ≤ k) (hk2 : k ≤ ((init eig0.length eig0).run ops).rows) :
+    ∃ s' b, ((init eig0.length eig0).run ops).trim (some (.int k)) = .ok s' ∧
+      build eig0.length eig0 (some (.int k)) = .ok b ∧ Same s' b := by
+  obtain ⟨s', b, h1, h2, h3, h4, h5, h6⟩ := trim_eq_build_with_max h0 ops hk1 hk2
+  exact ⟨s', b, h1, h2, ⟨h3, h4, h5, h6⟩⟩
+
+/-! ### the variance-fraction form as the float code evaluates it -/
+
+/-- PROPERTY (rounding cannot touch the bookkeeping clause): whatever the float evaluation of the kept ratio
+and of the cumulative ratios returned (`tvr`, `cum` arbitrary), after any history the float form of the setter
+either raises `ValueError` or changes `n_active_components` only, to a value in `1 .. n_components`; the
+reachable-state invariant — hence original variance, variance accounting, count consistency — survives.
+(All theorems of this section quantify over histories that may contain `floatObs` calls.) -/
+theorem float_rounding_keeps_bookkeeping {eig0 : List Rat} (h0 : eig0 ≠ []) (ops : List Op) (r tvr : Rat)
+    (cum : List Rat) :
+    let s := (init eig0.length eig0).run ops
+    s.setActive (.floatObs r tvr cum) = .error .value ∨
+    ∃ s', s.setActive (.floatObs r tvr cum) = .ok s' ∧ Reach eig0 s' ∧ s'.rows = s.rows ∧
+      s'.eig = s.eig ∧ s'.trimmed = s.trimmed :=
+  floatObs_keeps_reach (reach_run (reach_init h0) ops) r tvr cum
+
+/-- PROPERTY (rounding is irrelevant away from ties): if the float values are within `ε` of the exact ratios
+and the requested fraction is more than `ε` away from every exact cumulative ratio (and from the exact kept
+ratio), the code selects exactly the count of exact arithmetic — the exact model (`Val.float`) *is* the
+code's behaviour on the generated (tie-free) inputs. -/
+theorem float_rounding_irrelevant_away_from_ties (s : St) {r tvr ε : Rat} {cum : List Rat}
+    (ht : |tvr - s.totalVarianceRatio| ≤ ε) (ht' : ε < |s.totalVarianceRatio - r|)
+    (hc : List.Forall₂ (fun c c' => |c - c'| ≤ ε) cum s.totalCumRatio)
+    (hc' : ∀ c' ∈ s.totalCumRatio, ε < |c' - r|) :
+    s.setActive (.floatObs r tvr cum) = s.setActive (.float r) :=
+  floatObs_agrees_away_from_ties s ht ht' hc hc'
+
+/-- PROPERTY (exact ties, exact arithmetic): a fraction equal to the kept ratio of `j` components selects
+exactly `j`; the fraction equal to the whole kept ratio — `1.0` on an untrimmed model — keeps every
+component and does not raise. -/
+theorem float_setter_exact_tie {eig0 : List Rat} (h0 : eig0 ≠ []) (hp : ∀ x ∈ eig0, 0 < x) (ops : List Op)
+    {j : Nat} (h1 : 1 ≤ j) (h2 : j ≤ ((init eig0.length eig0).run ops).rows) :
+    let s := (init eig0.length eig0).run ops
+    s.setActive (.float ((s.eig.take j).sum / eig0.sum)) = .ok { s with nActive := j } ∧
+    s.setActive (.float s.totalVarianceRatio) = .ok { s with nActive := s.rows } ∧
+    (s.trimmed = [] → s.setActive (.float 1) = .ok { s with nActive := s.rows }) := by
+  intro s
+  have hr : Reach eig0 s := reach_run (reach_init h0) ops
+  refine ⟨setActive_float_tie hr hp h1 h2, setActive_float_top hr hp, fun ht => ?_⟩
+  have := setActive_float_top hr hp
+  rwa [totalVarianceRatio_untrimmed hr hp ht] at this
+
+/-- PROPERTY (what the float code selects): the float `cumsum` is non-decreasing; on any non-decreasing
+observed list an accepted call selects the smallest count whose *observed* cumulative ratio reaches the
+fraction. -/
+theorem float_setter_observed_selection {s s' : St} {r tvr : Rat} {cum : List Rat} (hs : cum.Pairwise (· ≤ ·))
+    (h : s.setActive (.floatObs r tvr cum) = .ok s') :
+    0 < r ∧ r ≤ tvr ∧ 1 ≤ s'.nActive ∧ s'.nActive ≤ s.rows ∧
+    (∀ c ∈ cum.take (s'.nActive - 1), c < r) ∧ (∀ c ∈ cum.drop (s'.nActive - 1), r ≤ c) :=
+  floatObs_selects hs h
+
+/-- the coded behaviour at fraction `1.0`, by witness: the spectrum `[4, 2, 1]` untrimmed, kept ratio exactly
+`1`, but the last float cumulative ratio one unit in the last place short of `1`: the count becomes
+`n_components + 1`, the call raises and (`St.step`) the model is left as it was. -/
+theorem fraction_one_rounding_witness :
+    (init 3 [4, 2, 1]).setActive (.floatObs 1 1 [4/7, 6/7, 1 - 1/2^53]) = .error .value ∧
+    (init 3 [4, 2, 1]).step (.set (.floatObs 1 1 [4/7, 6/7, 1 - 1/2^53])) = init 3 [4, 2, 1] ∧
+    (init 3 [4, 2, 1]).setActive (.float 1) = .ok (init 3 [4, 2, 1]) := by
+  decide +kernel
+
+/-- the repaired behaviour (count clamped to `n_components`): never raises for a fraction in the accepted
+range, whatever the rounding, and agrees with the code wherever the code does not raise. -/
+theorem repaired_float_never_raises {eig0 : List Rat} (h0 : eig0 ≠ []) (ops : List Op) {r tvr : Rat}
+    (cum : List Rat) (hr0 : 0 < r) (hr1 : r ≤ tvr) :
+    let s := (init eig0.length eig0).run ops
+    (∃ s', s.setActiveFloatRepaired r tvr cum = .ok s' ∧ Reach eig0 s') ∧
+    (∀ s', s.setActive (.floatObs r tvr cum) = .ok s' → s.setActiveFloatRepaired r tvr cum = .ok s') :=
+  repaired_float_spec (reach_run (reach_init h0) ops) cum hr0 hr1
+
+/-! ### ratio accessors, `orthonormalize_against_inplace` -/
+
+/-- PROPERTY (ratio accessors): after any history of a positive spectrum the eigenvalue ratios sum to the
+kept ratio, the cumulative ratios are the first `n_active` of the list the float setter compares with, are
+strictly increasing, positive, end at the kept ratio `≤ 1`, and kept ratio + noise ratio × #discarded = 1. -/
+theorem ratio_accessors_consistent {eig0 : List Rat} (h0 : eig0 ≠ []) (hp : ∀ x ∈ eig0, 0 < x) (ops : List Op) :
+    let s := (init eig0.length eig0).run ops
+    s.eigenvaluesRatio.sum = s.varianceRatio ∧
+    s.eigenvaluesCumulativeRatio = s.totalCumRatio.take s.nActive ∧
+    s.eigenvaluesCumulativeRatio.length = s.nActive ∧
+    s.eigenvaluesCumulativeRatio.Pairwise (· < ·) ∧
+    (∀ c ∈ s.eigenvaluesCumulativeRatio, 0 < c ∧ c ≤ s.varianceRatio) ∧
+    s.eigenvaluesCumulativeRatio.getLast? = some s.varianceRatio ∧ s.varianceRatio ≤ 1 ∧
+    s.varianceRatio + s.noiseVarianceRatio * (s.discarded.length : Rat) = 1 := by
+  intro s
+  have hr : Reach eig0 s := reach_run (reach_init h0) ops
+  obtain ⟨c1, c2, c3, c4, c5⟩ := cumulativeRatio_spec hr hp
+  exact ⟨eigenvaluesRatio_sum s, eigenvaluesCumulativeRatio_eq_take s, c1, c2, c3, c4, c5, ratio_accounting hr hp⟩
+
+/-- PROPERTY (`orthonormalize_against_inplace`, bookkeeping): with room for both models nothing changes;
+with `k1 < d < k1 + n_components` the model is trimmed to the `d - k1` components that survive, the pool
+receives the lost eigenvalues and the active count is the old one capped at `d - k1`; with `d ≤ k1` the call
+raises and the bookkeeping is untouched.  (As an `Op` it is covered by every history theorem above.) -/
+theorem ortho_against_bookkeeping {eig0 : List Rat} (h0 : eig0 ≠ []) (ops : List Op) (d k1 : Nat) :
+    let s := (init eig0.length eig0).run ops
+    (k1 + s.rows ≤ d → s.orthoAgainst d k1 = .ok s) ∧
+    (d < k1 + s.rows → k1 < d → ∃ s', s.orthoAgainst d k1 = .ok s' ∧ s'.rows = d - k1 ∧
+      s'.nActive = min s.nActive (d - k1) ∧ s'.eig = eig0.take (d - k1) ∧
+      s'.trimmed = s.trimmed ++ s.eig.drop (d - k1)) ∧
+    (d ≤ k1 → s.orthoAgainst d k1 = .error .value ∧ s.step (.ortho d k1) = s) := by
+  intro s
+  have hr : Reach eig0 s := reach_run (reach_init h0) ops
+  refine ⟨ortho_roomy, fun h1 h2 => ?_, fun h => ?_⟩
+  · obtain ⟨s', a1, _, a3, a4, a5, a6⟩ := ortho_tight hr h1 h2
+    exact ⟨s', a1, a3, a4, a5, a6⟩
+  · have := ortho_degenerate (d := d) (k1 := k1) hr.rows_pos h
+    exact ⟨this, by simp [St.step, St.apply, this]⟩
+
 /-! ## non-vacuity: the hypotheses are satisfiable on concrete non-trivial values -/
 
 section Examples
@@ -293,6 +559,64 @@ example : (init 4 [8, 4, 2, 2]).setActive (.npint 5) = .error .value := by decid
 example : (init 4 [8, 4, 2, 2]).setActive (.int 5) = .ok (init 4 [8, 4, 2, 2]) := by decide +kernel
 example : postprocess (1/10^10) false [((2:Rat), 0), (-1/10^17, 1), (5, 2), (1/10^12, 3)] = [(5, 2), (2, 0)] := by
   decide +kernel
+
+/-! object-backed: two points on a line (`PointCloud`, `d = 2 · 1`), one component, template tagged 7 -/
+def exPC : ObjModel (PC 2 1) (2 * 1) 1 :=
+  { ops := pcOps 2 1, template := ⟨Matrix.of ![![0], ![0]], 7⟩, U := prefixRows exU (by decide : 1 ≤ 2),
+    m := ![1, 2] }
+def exObj : PC 2 1 := ⟨Matrix.of ![![6], ![2]], 3⟩
+example : exPC.U * exPC.Uᵀ = 1 := by decide +kernel
+example : (exPC.reconstruct exObj).points = Matrix.of ![![14/5], ![22/5]] := by decide +kernel
+example : (exPC.reconstruct exObj).tag = 3 ∧ (exPC.inst ![5]).tag = 7 ∧ exPC.mean.tag = 7 := by decide
+example : (exPC.inst ![5]).points = Matrix.of ![![4], ![6]] := by decide +kernel
+example : exPC.reconstruct (exPC.reconstruct exObj) = exPC.reconstruct exObj :=
+  (object_level_identities exPC (pcOps_lawful 2 1) (by decide +kernel) exObj ![0]).2.1
+/-- an image with 1 channel of 1 × 2 pixels: `as_vector` is row major -/
+example : (imgOps 1 1 2).asVec ⟨fun _ _ x => if x = 0 then 5 else 9, 0⟩ = ![5, 9] := by decide +kernel
+example : (pcOps 2 2).asVec ⟨Matrix.of ![![1, 2], ![3, 4]], 0⟩ = ![1, 2, 3, 4] := by decide +kernel
+/-- whitening contract: `σ² = l · n_samples + noise` with `l = [8/3, 2/3]`, 6 samples, no noise -/
+example : ∀ i, (![4, 2] : Fin 2 → ℚ) i ^ 2 = exL i * 6 + 0 := by decide +kernel
+example : whitened exU ![4, 2] * (whitened exU ![4, 2])ᵀ = diagonal ![1/16, 1/4] := by decide +kernel
+example : padWeights 2 [3] = some ![3, 0] ∧ padWeights 2 [1, 2, 3] = none ∧ exactWeights 2 [3] = none := by
+  decide +kernel
+/-- QR contract witness: the rotation `exU` split into one row for the other model and one for this -/
+example : qTop (k1 := 1) (k2 := 1) exU * (qTop (k1 := 1) (k2 := 1) exU)ᵀ = 1 ∧
+    qBot (k1 := 1) (k2 := 1) exU * (qTop (k1 := 1) (k2 := 1) exU)ᵀ = 0 := by decide +kernel
+
+/-! bookkeeping: pool order, observed float values, ortho -/
+example : cutsRun (init 4 [8, 4, 2, 2]) exOps = [2, 1] ∧ poolOf [8, 4, 2, 2] 4 [2, 1] = [2, 2, 4] := by
+  decide +kernel
+/-- the pool of the one-step build is in a different order, and nothing observable differs -/
+example : build 4 [8, 4, 2, 2] (some (.int 1)) = .ok { rows := 1, eig := [8], trimmed := [4, 2, 2], nActive := 1 } := by
+  decide +kernel
+example : Same ((init 4 [8, 4, 2, 2]).run exOps) { rows := 1, eig := [8], trimmed := [4, 2, 2], nActive := 1 } :=
+  ⟨by decide +kernel, by decide +kernel, by decide +kernel, by decide +kernel⟩
+/-- observed ratios a rounding error away from the exact ones, fraction 0.6 far from every tie: hypotheses of
+`float_rounding_irrelevant_away_from_ties` hold with `ε = 10⁻⁹` -/
+example : (init 4 [8, 4, 2, 2]).setActive (.floatObs (3/5) (1 - 1/2^53) [1/2, 3/4 - 1/2^54, 7/8, 1 - 1/2^53])
+    = (init 4 [8, 4, 2, 2]).setActive (.float (3/5)) :=
+  float_rounding_irrelevant_away_from_ties (ε := 1/10^9) _ (by decide +kernel) (by decide +kernel)
+    (by
+      have e : (init 4 [8, 4, 2, 2]).totalCumRatio = [1/2, 3/4, 7/8, 1] := by decide +kernel
+      rw [e]
+      exact .cons (by decide +kernel) (.cons (by decide +kernel) (.cons (by decide +kernel)
+        (.cons (by decide +kernel) .nil))))
+    (by decide +kernel)
+example : (init 4 [8, 4, 2, 2]).setActive (.float (3/5)) = .ok { init 4 [8, 4, 2, 2] with nActive := 2 } := by
+  decide +kernel
+/-- exact tie at 3/4 (two components): exact arithmetic selects 2, an observed value just below selects 3 -/
+example : (init 4 [8, 4, 2, 2]).setActive (.float (3/4)) = .ok { init 4 [8, 4, 2, 2] with nActive := 2 } ∧
+    (init 4 [8, 4, 2, 2]).setActive (.floatObs (3/4) 1 [1/2, 3/4 - 1/2^54, 7/8, 1])
+      = .ok { init 4 [8, 4, 2, 2] with nActive := 3 } := by decide +kernel
+example : (init 3 [4, 2, 1]).setActiveFloatRepaired 1 1 [4/7, 6/7, 1 - 1/2^53] = .ok (init 3 [4, 2, 1]) := by
+  decide +kernel
+example : (init 4 [8, 4, 2, 2]).orthoAgainst 5 2 = .ok { rows := 3, eig := [8, 4, 2], trimmed := [2], nActive := 3 } ∧
+    ({ init 4 [8, 4, 2, 2] with nActive := 2 } : St).orthoAgainst 5 2
+      = .ok { rows := 3, eig := [8, 4, 2], trimmed := [2], nActive := 2 } ∧
+    (init 4 [8, 4, 2, 2]).orthoAgainst 6 2 = .ok (init 4 [8, 4, 2, 2]) ∧
+    (init 4 [8, 4, 2, 2]).orthoAgainst 2 2 = .error .value := by decide +kernel
+example : ((init 4 [8, 4, 2, 2]).run exOps).inverseNoiseVariance = .ok (3 / 8) ∧
+    (init 4 [8, 4, 2, 2]).inverseNoiseVariance = .error .value := by decide +kernel
 
 end Examples
 
